@@ -80,3 +80,26 @@ func vh_C13_writeto_conc() {
 	vAssert(f.offset == n, "the File offset marks the end of what was delivered")
 	vEmit("n", n)
 }
+
+// concurrent ReadFrom under a fault plan: the count is the number of bytes
+// consumed from the source, the error is reported, the offset marks the
+// lowest failing offset
+func vh_C13_readfrom_conc() {
+	l := vNChunks()
+	src := vNondetArray(l)
+	fail := vChoice(l+1) - 1
+	c, f, ff := vNewFaultXfer(nil, 1, fail)
+	defer vPeerDone(c)
+	c.useConcurrentWrites = true
+	rd := &vReader{data: src}
+	n, err := f.ReadFromWithConcurrency(rd, 2)
+	vAssert(n == int64(rd.pos), "ReadFrom's count is the number of bytes consumed from the source")
+	if fail < 0 {
+		vAssert(err == nil && n == int64(l) && vBytesEq(ff.data, src), "complete transfer")
+		vAssert(f.offset == int64(l), "offset advanced by the bytes written")
+		return
+	}
+	vAssert(err != nil, "a failed chunk is reported")
+	vAssert(f.offset == ff.failOff, "the File offset marks the lowest failing offset")
+	vAssert(vBytesEq(ff.data[:vMin(int(f.offset), len(ff.data))], src[:vMin(int(f.offset), len(ff.data))]), "the prefix below the offset really moved")
+}
